@@ -282,6 +282,14 @@ fn decorate(rng: &mut Rng, text: &str, pool: &[char]) -> String {
                 out.push_str(&format!("S := '{}';\n", run.replace('\'', "")));
             }
         }
+        if rng.chance(1, 40) {
+            // regions the formatter leaves alone
+            if rng.chance(1, 2) {
+                out.push_str("// pasfmt off\nKeep   :=   1 ;\n// pasfmt on\n");
+            } else {
+                out.push_str("asm\n  MOV   EAX,  EBX\nend;\n");
+            }
+        }
         if rng.chance(1, 4) {
             let w = word(rng);
             match rng.below(5) {
